@@ -32,10 +32,11 @@ def run(ctx):
         cases, docs = os.path.join(d, "cases.ndjson"), os.path.join(d, "docs.ndjson")
         consts = None
         if ctx.quick:
-            # every revision end to end (one of the two revision-4 algorithms), the real file operations for one algorithm per bit layout
+            # every revision end to end (one of the two revision-4 algorithms); the real file operations for revision 2 and one
+            # seed-chosen algorithm with the revision >= 3 bit layout
             r4 = ["rc4_128", "aes_128"][ctx.seed % 2]
             consts = {"E2EAlgs": '{"rc4_40", "rc4_128_r3", "%s", "aes_256", "aes_256_r6"}' % r4,
-                      "ApiAlgs": '{"rc4_40", "%s", "%s"}' % (["rc4_128_r3", r4][ctx.seed % 2], ["aes_256", "aes_256_r6"][(ctx.seed // 2) % 2])}
+                      "ApiAlgs": '{"rc4_40", "%s"}' % ["rc4_128_r3", r4, "aes_256", "aes_256_r6"][ctx.seed % 4]}
         res = vlib.run_tlc("SecPerm", cfg, workers=4, timeout=1800, heap="2g", payloads={"CASE": cases, "DOC": docs}, consts=consts)
         if res.violated:
             raise vlib.HarnessError("design model SecPerm violates its own property %s:\n%s" % (res.violated, res.error_state))
